@@ -108,7 +108,33 @@ func shape(sql string) string {
 	return strings.Join(tags, "+")
 }
 
+// limitInput: exactly the documented token limit (tokenizer.MaxTokens), one
+// less or one more, with or without white space at the end - where the
+// context-aware and the context-free tokenizer must agree like anywhere else.
+func limitInput(delta int, trailing bool) string {
+	n := tokenizer.MaxTokens + delta // tokens without the end marker
+	var sb strings.Builder
+	sb.Grow(2*n + n/400 + 16)
+	sb.WriteString("SELECT 1") // 2 tokens
+	for i := 2; i+1 < n; i += 2 {
+		sb.WriteString(",1") // 2 tokens
+		if i%800 == 0 {
+			sb.WriteByte('\n')
+		}
+	}
+	if n%2 == 1 {
+		sb.WriteString(" x") // one more token (an alias)
+	}
+	if trailing {
+		sb.WriteString("\n")
+	}
+	return sb.String()
+}
+
 func (p *P) input(g gen.G) string {
+	if g.S.Intn(1500, "c11.limit") == 1499 {
+		return limitInput(g.S.Intn(3, "c11.limitdelta")-1, g.S.Intn(2, "c11.limittrail") == 1)
+	}
 	switch g.S.Intn(11, "c11.input") {
 	case 10:
 		// nothing to parse: the context still decides the answer
@@ -411,6 +437,12 @@ func (p *P) Run(src *tape.Source, trace bool) *core.Result {
 		thin = append(thin, ks[len(ks)-8:]...)
 		ks = dedupInts(thin)
 		r.Probes["very-large-input-thinned-cancellation-points"]++
+	}
+	if len(sql) > 1<<20 && len(ks) > 3 {
+		// multi-megabyte input: the comparison of the never-firing with the
+		// context-free run and the already-done case are what it is for
+		ks = []int{ks[0], ks[len(ks)/2], ks[len(ks)-1]}
+		r.Probes["input-at-the-documented-token-limit"]++
 	}
 	nFull := 0
 	fullAt := map[int]bool{}
